@@ -316,7 +316,7 @@ VALUE_GATES = ["qcow2.version", "qcow2.cluster_bits", "qcow2.crypt_method", "qco
                "envelope.aead_footer.version.noverify"]
 SEMANTIC_GATES = ["qcow2.data_file_bit", "qcow2.extl2_small_clusters", "qcow2.backing_without_object", "qcow2.data_file_without_object", "vhdx.missing_region",
                   "vhdx.locator_type", "vhdx.parent_missing", "hdd.image_type", "hdd.no_descriptor", "envelope.cipher_name",
-                  "envelope.missing_attribute", "keystore.mode", "keysafe.identifier", "keysafe.locator_kind", "keysafe.names", "blanked_structure"]
+                  "envelope.missing_attribute", "keystore.mode", "keysafe.identifier", "keysafe.locator_kind", "keysafe.names", "blanked_structure", "vhdx.unknown_required_metadata"]
 
 
 def exhaustive(tier):
@@ -549,6 +549,13 @@ def semantic(spec, out):
         if bad.startswith('mode = "NONE"') or '\nmode = "NONE"' in bad:
             bad = good.replace('mode = "NONE"\n', "")
         err = lib(KeyStore.from_text, bad)[1]
+    elif name == "vhdx.unknown_required_metadata":
+        # an item the reader does not know is ignorable only if the file does not flag it as required (MS-VHDX 2.6.2.2)
+        kind = ["system-required", "user-required", "system-vd-required"][n % 3]
+        good = bvhdx.build(dict(VHDX_SPEC, extra_meta=kind.replace("-required", "")))[0].materialize()
+        bad = bvhdx.build(dict(VHDX_SPEC, extra_meta=kind))[0].materialize()
+        ctl = lib(open_vhdx, good)[1]
+        err = lib(open_vhdx, bad)[1]
     elif name == "blanked_structure":
         # a validated structure whose whole region is blank (all 0x00 or all 0xFF) carries no signature either
         hv, _replay = base_hyperv()
